@@ -11,6 +11,13 @@ VERIF = os.path.dirname(os.path.dirname(os.path.abspath(__file__)))
 
 def run(line):
     label, props, expect, specs = line.rstrip("\n").split("\t")
+    one = os.environ.get("JBV_CORPUS_PROP")
+    if one and one in props.split(","):
+        # the thorough tier of one property: judge the entry by that property's check alone
+        # (a FIRE entry listed for several properties fires if *any* of them reports it, so such
+        # an entry is only run in full)
+        if expect == "SILENT" or props.split(",") == [one]:
+            props = one
     cmd = [os.path.join(VERIF, "tools", "mutest.py"), "--quiet"]
     if specs.startswith("PATCH:"):
         # a stored diff (relative to /verif), for edits a single regex substitution cannot express
